@@ -14,7 +14,8 @@ RULE = ("scripts with 1-2 loops (int/float ranges with/without step incl. empty 
         "int/float/bool/str values and expressions, sometimes a bool among numbers or 0/1 among bools: refused or bound converted), "
         "bodies of 1-4 statements using the variable in modes, arguments (also inside measured-register expressions), keyword arguments, list "
         "elements and array indices, statements before and after, loops reusing a variable name; non-trivial = a loop with >=2 iterations "
-        "and >=2 body statements, an empty range, or a negative case; distinct by SHA-1 of the loop script")
+        "and >=2 body statements, an empty range, or a negative case; distinct by SHA-1 of the loop script"
+        "; negative case: the loop variable's own name inside its value list")
 BUDGET = {"quick": 4000, "thorough": 50000}
 MIN_NONTRIVIAL = {"quick": 400, "thorough": 4000}
 REQUIRED_FUNCTIONS = ["listener.py:BlackbirdListener.exitForloop", "listener.py:BlackbirdListener.enterForloop", "listener.py:BlackbirdListener.exitStatement"]
